@@ -1,6 +1,5 @@
 CONSTANTS
   Impl = "intended"
-  LineCache <- EmptyCache
 INIT Init
 NEXT Next
 INVARIANT Rep
